@@ -63,7 +63,7 @@ func (l *ListSearch) sendNewLoc(operation chan<- Task, task Task) {
 
 func (l *ListSearch) updateMajor(operation chan<- Task, task Task) {
 	// Update the best value seen so far, and send a MajorIteration.
-	if task.F < l.bestF {
+	if l.bestIdx == -1 || task.F < l.bestF || math.IsNaN(l.bestF) {
 		l.bestF = task.F
 		l.bestIdx = task.ID
 	} else {
